@@ -67,6 +67,21 @@ def run(R):
     for m in S.METHODS:
         for sym, ver in [("crypt", "GLIBC_2.2.5"), ("crypt", "XCRYPT_2.0"), ("fcrypt", "GLIBC_2.2.5"), ("xcrypt", "XCRYPT_2.0")]:
             ops.append("CV %s %s %s %s" % (sym, ver, hx(b"old binary"), hx(S.CANON[m])))
+    # the re-entrant compat names an old binary binds: crypt_gensalt_r / xcrypt_gensalt_r (XCRYPT_2.0) are called the way crypt_gensalt_rn is,
+    # xcrypt_r / crypt_r@GLIBC_2.2.5 the way crypt_r is; everything such a caller can observe is compared with the modern name (seeded/C20e)
+    GV_SYMS = [("crypt_gensalt_rn", "-"), ("crypt_gensalt_r", "XCRYPT_2.0"), ("xcrypt_gensalt_r", "XCRYPT_2.0")]
+    RV_SYMS = [("crypt_r", "-"), ("crypt_r", "GLIBC_2.2.5"), ("xcrypt_r", "XCRYPT_2.0")]
+    gv_cases = []
+    rbv = hx(bytes(range(7, 39)))
+    for m in ("yescrypt", "sha512crypt", "bcrypt", "md5crypt", "descrypt"):
+        for cnt, nrb, size in ((0, 32, 192), (0, 32, 5), (0, 2, 192), (1, 32, 192)):
+            gv_cases.append("%s %d %s %d %d" % (hx(PREFIXES.get(m, b"")), cnt, rbv, nrb, size))
+    gv_cases.append("%s 0 %s 32 192" % (hx(b"$zz$"), rbv))
+    for case in gv_cases:
+        for sym, ver in GV_SYMS: ops.append("GV %s %s %s" % (sym, ver, case))
+    rv_cases = ["%s %s" % (hx(b"old binary"), hx(S.CANON[m])) for m in S.METHODS] + ["%s %s" % (hx(b"x"), hx(b"$1$bad:salt")), "%s %s" % (hx(b"x"), hx(b"*0"))]
+    for case in rv_cases:
+        for sym, ver in RV_SYMS: ops.append("RV %s %s %s" % (sym, ver, case))
     ops += ["SK 0123456789abcdef 3", "EN 4e6f772069732074 0 5", "EN 3fa40e8a984d4815 1 0", "SKR 1 133457799bbcdff1 9", "ENR 1 0123456789abcdef 0 2", "ENR 1 85e813540f0ab405 1 2"]
     rb = hx(bytes(R.rng.randrange(256) for _ in range(32)))
     for m in S.METHODS:
@@ -138,6 +153,12 @@ def run(R):
                 [("crypt", "GLIBC_2.2.5"), ("crypt", "XCRYPT_2.0"), ("fcrypt", "GLIBC_2.2.5"), ("xcrypt", "XCRYPT_2.0")]}
         if len(set(outs.values())) != 1:
             bad.append(("CV * %s" % m, "crypt/fcrypt/xcrypt bound at different versions disagree: %r" % outs, str(outs)))
+    for kind, cases, syms in (("GV", gv_cases, GV_SYMS), ("RV", rv_cases, RV_SYMS)):
+        for case in cases:
+            outs = {"%s@%s" % (sym, ver): byop.get("%s %s %s %s" % (kind, sym, ver, case)) for sym, ver in syms}
+            if len(set(outs.values())) != 1 or any(v is None or "NOSYM" in v for v in outs.values()):
+                bad.append(("%s %s %s %s" % (kind, syms[1][0], syms[1][1], case), "a compatibility-only symbol does not behave as its modern counterpart (return value, errno, "
+                            "caller's buffer): %r" % outs, str(outs)))
     # identical results when the released library is substituted
     if have_released:
         old, e2 = run_with(RELEASED_SO, os.path.dirname(RELEASED_SO))
